@@ -273,10 +273,16 @@ class Interp:
                 raise PyRaise(TypeError(f"{f.qual}() takes {len(params)} positional arguments but {len(args)} were given"))
         for p, v in zip(params, args):
             env[p] = v
+        extra_kw = {}
         for k, v in (kwargs or {}).items():
             if k not in params and k not in [x.arg for x in a.kwonlyargs]:
+                if a.kwarg is not None:
+                    extra_kw[k] = v
+                    continue
                 raise PyRaise(TypeError(f"{f.qual}() got an unexpected keyword argument {k!r}"))
             env[k] = v
+        if a.kwarg is not None:
+            env[a.kwarg.arg] = extra_kw
         defaults = a.defaults
         for p, d in zip(params[len(params) - len(defaults):], defaults):
             if p not in env:
@@ -409,6 +415,13 @@ class Interp:
             finally:
                 if st.finalbody:
                     self.block(st.finalbody, env)
+        elif isinstance(st, ast.With):
+            # context managers are modelled as their value (no __exit__ effect)
+            for item in st.items:
+                v = self.ev(item.context_expr, env)
+                if item.optional_vars is not None:
+                    self.assign(item.optional_vars, v, env)
+            self.block(st.body, env)
         elif isinstance(st, ast.FunctionDef):
             # a nested helper: a closure over the defining environment (read access; `nonlocal` stores are not modelled)
             if st.decorator_list or any(isinstance(n, (ast.Nonlocal, ast.Yield, ast.YieldFrom)) for n in ast.walk(st)):
